@@ -135,6 +135,7 @@ func RunTimedWorld(r sim.Src, mons []*sim.Mon, keepLog bool, sh TimedShape) *sim
 	maxView := -1
 	var phaseSkew map[int][4]int
 	lateTx := false
+	atMin := false
 	switch sh.Kind {
 	case "c08":
 		cfg.HonourStopTxFlow = true
@@ -210,11 +211,14 @@ func RunTimedWorld(r sim.Src, mons []*sim.Mon, keepLog bool, sh TimedShape) *sim
 		if r.Intn("landonsub", 2) == 0 {
 			o.LandOnSubscribePct = 25
 		}
+		if r.Intn("rightaftersub", 3) == 0 {
+			o.RightAfterSubscribePct = 20
+		}
 		if rotate {
 			// committee rotation on the idle chain (seeded change C16m: a returning identity's first timer): as in C08's
 			// rotation worlds the resting identity has to follow the chain from consensus traffic alone, so the phases of
 			// a round arrive in their natural order and every pool gets a new transaction at the same instant
-			o.TxJitter, o.LandOnSubscribePct = false, 0
+			o.TxJitter, o.LandOnSubscribePct, o.RightAfterSubscribePct = false, 0, 0
 			phaseSkew = map[int][4]int{}
 			for i := 0; i < ids; i++ {
 				phaseSkew[i] = [4]int{0, 1, 2, 3}
@@ -230,7 +234,12 @@ func RunTimedWorld(r sim.Src, mons []*sim.Mon, keepLog bool, sh TimedShape) *sim
 		// wait / right after the proposal, while its round is still running
 		for h := 0; h < o.Heights+2; h++ {
 			it := sim.Sched{Kind: "tx", Tx: vt.Tx(1000 + h), To: all, Trig: "after-proposal", TrigCount: h + 1}
-			switch cl := r.Intn("txclass", 4); {
+			switch cl := r.Intn("txclass", 5); {
+			case cl == 4: // right at the minimum block time, within a latency of the instant at which the speaker's first timer
+				// expires and it subscribes: the notification may follow the subscription by a millisecond (seeded change
+				// C16n: a notification dropped because the minimum block time has "not yet" elapsed)
+				it.Dur = tpb - o.MaxLat + o.MaxLat*time.Duration(r.Intn("txatmin", 17))/8
+				atMin = true
 			case cl == 0: // none at this height: the block waits for the maximum
 				continue
 			case cl == 1: // early
@@ -385,6 +394,9 @@ func RunTimedWorld(r sim.Src, mons []*sim.Mon, keepLog bool, sh TimedShape) *sim
 	w := sim.NewWorld(cfg, r, nil, watch, mons, keepLog)
 	if lateTx {
 		w.Stat("c16_tx_during_round")
+	}
+	if atMin {
+		w.Stat("c16_tx_at_minimum_block_time")
 	}
 	if o.TxLag {
 		w.Stat("tx_lag")
